@@ -16,6 +16,7 @@ import XzVerif.Model.BinTree
 import XzVerif.Model.XzW
 import XzVerif.Model.Writer2F
 import XzVerif.Model.LazyDec
+import XzVerif.Model.XzWF
 /-
   driver — line protocol around the executable definitions of Spec and Model.
   One request per line on stdin, one reply line on stdout.  Core-only, so it links.
@@ -453,6 +454,27 @@ def handle (line : String) : String :=
       if mt = "1" then hex (XzW.run cfg BT.BT4 (BT.St.new dc bs) writes)
       else hex (XzW.run cfg HT.HT4 (HT.St.new dc bs) writes)
     | _, _, _, _, _ => "bad-op"
+  -- xzwfrun <matcher> <propsByte> <dictCap> <bufSize> <blockSize> <flags> <k> <mode> (W<hex>|C)... → the xz writer model on a
+  -- failing sink: new:<err> or per call n:err:panic@sinkLen | sink bytes | number of sink calls
+  | "xzwfrun" :: mt :: pb :: dc :: bs :: blk :: fl :: k :: mode :: calls =>
+    match pb.toNat?.bind Lzma2.propsOfByte, dc.toNat?, bs.toNat?, blk.toNat?, fl.toNat?, k.toNat?, mode.toNat? with
+    | some p, some dc, some bs, some blk, some fl, some k, some mode =>
+      let cfg : XzW.Cfg := { w2 := { props := p, dictCap := dc, bufSize := bs }, blockSize := blk, flags := fl }
+      let F := W2F.planOf k mode
+      let cl : List XzWF.Call := calls.map (fun c => if c = "C" then .close else .write (unhex (c.drop 1).toString))
+      let xe : Option XzWF.XErr → String := fun e => match e with
+        | none => "ok" | some .closed => "closed" | some .sink => "sink" | some (.w e) => errName (some e)
+      let fmt (out : ByteArray) (ncalls : Nat) (rs : List (XzWF.CallRes × Nat)) : String :=
+        " ".intercalate (rs.map (fun (r, sz) => s!"{r.n}:{xe r.err}:{if r.panic then 1 else 0}@{sz}")) ++ " | " ++ hex out ++ s!" | calls={ncalls}"
+      if mt = "1" then
+        match XzWF.new cfg F (BT.St.new dc bs) with
+        | .error e => "new:" ++ xe (some e)
+        | .ok s0 => let (s, rs) := XzWF.run cfg BT.BT4 F (BT.St.new dc bs) s0 cl; fmt s.f.w.out s.f.calls rs
+      else
+        match XzWF.new cfg F (HT.St.new dc bs) with
+        | .error e => "new:" ++ xe (some e)
+        | .ok s0 => let (s, rs) := XzWF.run cfg HT.HT4 F (HT.St.new dc bs) s0 cl; fmt s.f.w.out s.f.calls rs
+    | _, _, _, _, _, _, _ => "bad-op"
   | ["lzmaops", h] =>
     let r := Lzma1.read 0 (unhex h)
     " ".intercalate (r.ops.toList.map opStr)
